@@ -2,6 +2,9 @@ use std::collections::HashSet;
 use std::hash::Hash;
 #[cfg(feature = "gssapi")]
 use std::sync::RwLock;
+#[cfg(ldap3_verif_shuttle)]
+use shuttle::sync::{Arc, Mutex};
+#[cfg(not(ldap3_verif_shuttle))]
 use std::sync::{Arc, Mutex};
 use std::time::Duration;
 
@@ -167,6 +170,13 @@ impl Ldap {
         msgmap.0 = next_ldap_id;
         msgmap.1.insert(next_ldap_id);
         next_ldap_id
+    }
+
+    #[cfg(ldap3_verif)]
+    #[doc(hidden)]
+    /// Verification hook: allocate a message ID exactly as an operation does.
+    pub fn verif_next_msgid(&mut self) -> i32 {
+        self.next_msgid()
     }
 
     pub(crate) async fn op_call(
